@@ -234,6 +234,57 @@ def oracle(ctx, widen=1):
             ctx.violation(f"mode { {k: (v if v is True else round(v, 4)) for k, v in vals.items()} } get_position{tuple(hkl)} [{tag}] ({r1[0]}) {what}",
                           {"constraints": vals, "hkl": list(hkl), "wl": wl}, {"kind": "impure-query", "what": "aligned request " + r1[0]})
     ctx.stream("oracle:aligned-requests", len(reqs) * 2, len(outcomes))
+    # calculators that are not complete yet (a lattice and references entered, but no U / UB worked out; or U without a lattice): every
+    # query is refused or answered as it may be — and leaves the calculation exactly as incomplete as it was
+    from diffcalc.ub.calc import UBCalculation
+    from diffcalc.hkl.geometry import Position
+    nlc, seen = 0, set()
+    for it in range(ctx.scale(40, 1500) * widen):
+        rng = ctx.rng
+        ub = UBCalculation("incomplete")
+        stage = rng.choice(["lattice+refl", "lattice+refl+orient", "lattice+2refl", "u-only", "lattice-only", "refl-only"])
+        with quiet():
+            if stage != "u-only" and stage != "refl-only":
+                ub.set_lattice("x", *rng.choice([(4.0,), (4.1, 5.2, 6.3), (4.1, 5.2, 6.3, 80, 95, 100)]))
+            if stage == "u-only":
+                ub.set_u(rot_from_rotvec([rng.uniform(-1, 1) for _ in range(3)]))
+            if "refl" in stage:
+                ub.add_reflection((1, 0, 0), Position(0, 60, 0, 30, 0, 0), 12.39842, "r1")
+            if stage == "lattice+2refl":
+                ub.add_reflection((0, 1, 0), Position(0, 60, 0, 30, 0, 90), 12.39842, "r2")
+            if "orient" in stage:
+                ub.add_orientation((0, 0, 1), (0, 0, 1), None, "o1")
+        tr = rng.choice(PL.modes())
+        vals = {nm: (True if nm in VOID else rng.uniform(5, 80)) for nm in tr}
+        hc = HklCalculation(ub, Constraints(vals))
+        pos = Position(*[rng.uniform(-60, 60) for _ in range(6)])
+        qs = [("get_position", lambda: S.run_impl("full", hc, (1.0, 0.3, 0.2), 1.0)), ("get_hkl", lambda: ("ok-v", tuple(float(x) for x in hc.get_hkl(pos, 1.0)))),
+              ("get_virtual_angles", lambda: ("ok-v", tuple(sorted((k, None if math.isnan(v) else round(v, 9)) for k, v in hc.get_virtual_angles(pos).items())))),
+              ("str", lambda: ("ok-v", (str(hc), str(ub))))]
+        rng.shuffle(qs)
+        first = {}
+        for rnd in range(2):
+            for name, thunk in qs:
+                before = snapshot(hc)
+                try:
+                    with quiet():
+                        ans = thunk()
+                except Exception as e:  # noqa
+                    ans = ("EXC:" + type(e).__name__,)
+                ans = canon(ans) if ans[0] in ("ok", "dce") else ans
+                nlc += 1
+                seen.add((stage, name, ans[0]))
+                what = None
+                if snapshot(hc) != before:
+                    what = "changed the calculator state"
+                elif name in first and first[name] != ans:
+                    what = f"was answered differently the second time ({str(first[name])[:80]} vs {str(ans)[:80]})"
+                first.setdefault(name, ans)
+                if what:
+                    ctx.violation(f"incomplete calculation ({stage}), mode {sorted(vals)}: {name} ({ans[0]}) {what}",
+                                  {"stage": stage, "mode": sorted(vals), "query": name}, {"kind": "impure-query", "what": "incomplete calculation " + name})
+                    break
+    ctx.stream("oracle:incomplete-calculations", nlc, len(seen))
 
 
 def replay(ctx, data):
